@@ -96,9 +96,15 @@ class ChainV(Val):
 class IdSetV(Val):
   """A set (or sorted duplicate-free list) of client ids: z3 Array Int->Bool."""
 
-  def __init__(self, term, is_list=False):
+  def __init__(self, term, is_list=False, is_sorted=None):
     self.term = term
     self.is_list = is_list
+    # a list is in sorted (deterministic) order unless it was built by list(<set or dict view>)
+    self.is_sorted = is_list if is_sorted is None else is_sorted
+
+  def to_list(self, ctx):
+    # list(<keys / set>): the same ids in the container's own order (dict: insertion; set: hash order)
+    return IdSetV(self.term, is_list=True, is_sorted=self.is_list and self.is_sorted)
 
   def has(self, x):
     return z3.Select(self.term, to_z3(x))
@@ -160,7 +166,7 @@ class IdSetV(Val):
     return m
 
   def sorted(self, ctx, **kw):
-    return IdSetV(self.term, is_list=True)
+    return IdSetV(self.term, is_list=True, is_sorted=True)
 
   def length(self, ctx):
     return CARD(self.term)
